@@ -1852,6 +1852,15 @@ func (db *DB) verifyWithExecutor(ctx context.Context, exec *syncExecutor) (info 
 		info.offset = WALHeaderSize
 		info.salt1, info.salt2 = salt1, salt2
 
+		// Nothing has been synced since this DB was opened, so the WAL was
+		// restarted while the read lock was not held: frames written after
+		// the last synced position of the old WAL may have been checkpointed
+		// and are gone from the WAL. Only a snapshot is safe.
+		if exec.state.lastSyncedWALOffset == 0 {
+			info.reason = "wal restarted while not replicating, snapshotting"
+			return info, nil
+		}
+
 		if detected, err := db.detectFullCheckpoint(ctx, [][2]uint32{{salt1, salt2}, {dec.Header().WALSalt1, dec.Header().WALSalt2}}); err != nil {
 			return info, fmt.Errorf("detect full checkpoint: %w", err)
 		} else if detected {
